@@ -1668,3 +1668,35 @@ def m_opt_unwrap_or_default(sim, st, c):
     if S.is_int_ty(rt):
         return Const(0, rt)
     return Term("Default", (), rt)
+
+
+
+@pattern(r"^std::num::<impl (i|u)(8|16|32|64|128|size)>::(div_euclid|rem_euclid|abs|signum|pow|wrapping_\w+|saturating_\w+|checked_\w+|overflowing_\w+|unsigned_abs|abs_diff|clamp|min|max)$")
+def m_int_method(sim, st, c):
+    """Integer inherent methods are kept as distinct uninterpreted operators (never identified with / or %)."""
+    args = [sim.resolve(st, a) for a in c["args"]]
+    name = c["fn"]["name"]
+    if all(isinstance(a, Const) for a in args) and name in ("div_euclid", "rem_euclid", "abs") and (len(args) < 2 or args[1].val != 0):
+        if name == "div_euclid":
+            q = args[0].val // args[1].val if args[1].val > 0 else -(args[0].val // -args[1].val)
+            return Const(q, c["ret_ty"])
+        if name == "rem_euclid":
+            return Const(args[0].val % abs(args[1].val), c["ret_ty"])
+        return Const(abs(args[0].val), c["ret_ty"])
+    rt = c["ret_ty"]
+    if rt.get("k") != "prim":
+        return Sym("%s(%s)" % (name, ", ".join(map(repr, args))), rt)
+    return Term("I" + name, tuple(args), rt)
+
+
+@pattern(r"^std::f(32|64)::<impl f(32|64)>::(\w+)$")
+def m_float_method(sim, st, c):
+    """Other f32 inherent methods: uninterpreted, named after the method (abs/powf/total_cmp have their own models)."""
+    name = c["fn"]["name"]
+    args = [sim.resolve(st, a) for a in c["args"]]
+    rt = c["ret_ty"]
+    if rt.get("k") == "prim" and rt["name"] == "bool":
+        return Term("f32::" + name, tuple(args), rt)
+    if rt.get("k") != "prim":
+        return Sym("f32::%s(%s)" % (name, ", ".join(map(repr, args))), rt)
+    return Term("f32::" + name, tuple(args), rt)
